@@ -1,1 +1,80 @@
-// harnesses for unit retry (mounted under cfg(kani) by the hook in /repo)
+//! K5 — `Retry::call` (tarpc/src/client/stub/retry.rs). BOUNDED: the policy declines within 3 attempts.
+//! NOT RUNNABLE with Kani 0.68: `tracing::trace!` in the body of Retry::call makes kani-compiler
+//! panic (intrinsics.rs:243) for every harness from which it is reachable, and stubbing tracing's
+//! macro support functions does not remove the offending item. The harness is kept for a newer Kani;
+//! the registered check is the native exhaustive stand-in in /verif/native (labelled bounded).
+use super::*;
+use crate::client::stub::Stub;
+use crate::verif_kani_support::{any_instant, run};
+use std::cell::Cell;
+
+pub struct Backend<'a> {
+    pub calls: &'a Cell<u32>,
+    pub same_request: &'a Cell<bool>,
+    pub first_ptr: &'a Cell<*const u32>,
+    pub results: [(bool, u32); 3],
+}
+impl<'a> stub::Stub for Backend<'a> {
+    type Req = Arc<u32>;
+    type Resp = u32;
+    async fn call(&self, _ctx: context::Context, request: Arc<u32>) -> Result<u32, RpcError> {
+        let k = self.calls.get();
+        if k == 0 {
+            self.first_ptr.set(Arc::as_ptr(&request));
+        } else if self.first_ptr.get() != Arc::as_ptr(&request) {
+            self.same_request.set(false);
+        }
+        self.calls.set(k + 1);
+        let (ok, v) = self.results[if k < 3 { k as usize } else { 2 }];
+        if ok {
+            Ok(v)
+        } else {
+            Err(RpcError::DeadlineExceeded)
+        }
+    }
+}
+
+/// C20: the retry stub re-issues the *identical* request (same Arc) until its policy declines,
+/// passes attempt numbers 1, 2, 3, ... to the policy, and returns the last result unchanged.
+#[kani::proof]
+#[kani::unwind(5)]
+fn k5_retry_attempts_numbered_and_last_result() {
+    let calls = Cell::new(0u32);
+    let same = Cell::new(true);
+    let first_ptr = Cell::new(std::ptr::null());
+    let results: [(bool, u32); 3] = [(kani::any(), kani::any()), (kani::any(), kani::any()), (kani::any(), kani::any())];
+    let decisions: [bool; 3] = [kani::any(), kani::any(), false]; // retry after attempt i? (declines by attempt 3: the bound)
+    let attempts_ok = Cell::new(true);
+    let seen_results_ok = Cell::new(true);
+    let n_policy = Cell::new(0u32);
+    let policy = |r: &Result<u32, RpcError>, i: u32| -> bool {
+        let k = n_policy.get();
+        if i != k + 1 {
+            attempts_ok.set(false);
+        }
+        let (ok, v) = results[if k < 3 { k as usize } else { 2 }];
+        let matches = match r {
+            Ok(x) => ok && *x == v,
+            Err(_) => !ok,
+        };
+        if !matches {
+            seen_results_ok.set(false);
+        }
+        n_policy.set(k + 1);
+        decisions[if k < 3 { k as usize } else { 2 }]
+    };
+    let retry = Retry::new(Backend { calls: &calls, same_request: &same, first_ptr: &first_ptr, results }, policy);
+    let ctx = context::Context { deadline: any_instant(), trace_context: Default::default() };
+    let req: u32 = kani::any();
+    let out = run(retry.call(ctx, req));
+    let n = calls.get();
+    kani::cover!(n == 3, "reachable: three attempts");
+    let expect_n = if !decisions[0] { 1 } else if !decisions[1] { 2 } else { 3 };
+    assert!(n == expect_n && n_policy.get() == n, "C20: one backend call and one policy consultation per attempt, until the policy declines");
+    assert!(attempts_ok.get(), "C20: attempt numbers passed to the policy are 1, 2, 3, ...");
+    assert!(same.get(), "C20: every attempt carries the identical request (same Arc)");
+    assert!(seen_results_ok.get(), "C20: the policy sees each attempt's own result");
+    let (ok, v) = results[(n - 1) as usize];
+    assert!(match out { Ok(x) => ok && x == v, Err(_) => !ok }, "C20: the last result is returned unchanged");
+}
+
